@@ -2,7 +2,7 @@
 from __future__ import annotations
 
 from .. import delegation_engine as de
-from .. import lib, metadata, traces_delegation
+from .. import cct_engine, lib, metadata, traces_delegation
 from ..tlc import MachineryFailure
 
 LEVEL = "model_checking"
@@ -43,6 +43,11 @@ def check(run):
             run.violation(de.coarse_sig(o), {"kind": "verify_delegation", **o})
         else:
             run.note_drift("outside Allowed but owned by another property: " + de.coarse_sig(o))
+    # the composed chain root -> key_mgr -> pkg_mgr (CCT.tla): design, two mutants, behaviours replayed through the real API
+    run.tlc("CCT", "CCT.cfg", timeout=600)
+    for m in ("km_unchecked", "any_signature"):
+        run.mutant("CCT", f"CCT_mut_{m}.cfg", expect="EndToEnd", timeout=300)
+    cct_engine.simulate_and_replay(run, 200 if quick else 4000)
     traces_delegation.fixture_traces(run, owns)
     traces_delegation.random_traces(run, 300 if quick else 6000, owns)
 
